@@ -471,6 +471,66 @@ func findItems(ds string, ps []*proc, tag string) {
 	}
 }
 
+// probeForeign sends the partition-level RPCs (normally issued by peers) to nodes that know the partition but
+// do not host it: they have to refuse, and stay alive
+func probeForeign(ds string, ps []*proc) {
+	u, _ := uuid.FromString(ds)
+	cat, err := catalogue(ps[0])
+	if err != nil {
+		return
+	}
+	for _, d := range cat {
+		if d.Id != ds {
+			continue
+		}
+		for _, part := range d.Parts {
+			pid, _ := uuid.FromString(part[0])
+			for _, p := range ps {
+				hosted := false
+				for _, n := range part[1:] {
+					if n == fmt.Sprint(p.id) {
+						hosted = true
+					}
+				}
+				if hosted || !p.checkAlive() {
+					continue
+				}
+				items := []*pb.BatchItem{{Id: wid(1), Value: []float32{1, 1, 0}}, {Id: wid(77), Value: []float32{7, 1, 0}}}
+				dm := pb.NewDataManagerClient(p.conn)
+				calls := map[string]func(ctx context.Context) error{
+					"pbinsert": func(ctx context.Context) error {
+						_, err := dm.PartitionBatchInsert(ctx, &pb.PartitionBatchRequest{DatasetId: u.Bytes(), PartitionId: pid.Bytes(), Items: items})
+						return err
+					},
+					"pbupdate": func(ctx context.Context) error {
+						_, err := dm.PartitionBatchUpdate(ctx, &pb.PartitionBatchRequest{DatasetId: u.Bytes(), PartitionId: pid.Bytes(), Items: items})
+						return err
+					},
+					"pbremove": func(ctx context.Context) error {
+						_, err := dm.PartitionBatchRemove(ctx, &pb.PartitionBatchRequest{DatasetId: u.Bytes(), PartitionId: pid.Bytes(), Items: items})
+						return err
+					},
+					"pinfo": func(ctx context.Context) error {
+						_, err := dm.PartitionInfo(ctx, &pb.PartitionInfoRequest{DatasetId: u.Bytes(), PartitionId: pid.Bytes()})
+						return err
+					},
+				}
+				for _, name := range []string{"pinfo", "pbinsert", "pbupdate", "pbremove"} {
+					ctx, cancel := context.WithTimeout(context.Background(), 3*time.Second)
+					err := calls[name](ctx)
+					cancel()
+					okv, es := 1, ""
+					if err != nil {
+						okv, es = 0, err.Error()
+					}
+					emit(event{"ev": "probe", "node": p.id, "rpc": name, "ok": okv, "err": es})
+					p.checkAlive()
+				}
+			}
+		}
+	}
+}
+
 func wid(k int) []byte {
 	u := make([]byte, 16)
 	u[0], u[14], u[15] = 0x77, byte(k>>8), byte(k)
@@ -844,6 +904,8 @@ func main() {
 		write("update", a, 98)
 		write("remove", b, 3)
 		find("writes")
+		probeForeign(ds, ps)
+		find("probes")
 		for _, p := range ps {
 			p.kill()
 		}
